@@ -141,12 +141,22 @@ def sites(fx, f, fxs):
             if f.name in eff['via'] or eff['via'][0] != c:
                 continue
             e = apply_closures(fx, expr_subst_args(eff['value'], actuals))
-            var, fields = None, ()
+            alts = []
             for x in expr_walk(e):
                 if isinstance(x, tuple) and x[0] == 'agg' and x[1] == 'state::ReverseStep':
-                    var, fields = x[2], x[3]
-                    break
-            out.append((bb, var, fields, t, e, eff['pure']))
+                    if not any(x[2] == a[0] for a in alts):
+                        alts.append((x[2], x[3]))
+            if len(alts) <= 1:
+                var, fields = alts[0] if alts else (None, ())
+                out.append((bb, var, fields, t, e, eff['pure'], None))
+            else:
+                # the entry is chosen on the way (`let undo = if .. { A(..) } else { B(..) }; log(undo)`): one site per
+                # alternative, tied to the block that builds it
+                for var, fields in alts:
+                    blocks = [b for b in f.reachable_blocks() for st in f.blocks[b]['stmts']
+                              if st['k'] == 'assign' and st['rv']['k'] == 'agg' and st['rv'].get('adt') == 'state::ReverseStep'
+                              and st['rv'].get('variant') == var]
+                    out.append((bb, var, fields, t, e, eff['pure'], blocks or None))
     return out
 
 
